@@ -44,6 +44,8 @@ func init() {
 			ruleCloseSafety(c, "C07.12")
 			ruleMetadataAccumulation(c, "C07.13")
 			ruleCancelDoesNotWait(c, "C07.14")
+			ruleRejectedIDsRecorded(c, "C07.15")
+			ruleContextErrorsAsStatus(c, "C07.16")
 		},
 		Explain:    "Static necessary conditions of per-RPC cancellation: a watcher on the stream's own context calls cancel-stream with that context's error on every successfully created stream; the code mapping table; the cancel frame is emitted only by the CAS winner, from its own goroutine, with the local receiver cancelled; the server's cancel case reaches the stream context cancel on every path, and that cancel precedes the write mutex (no loop/handler deadlock); single outcome by CAS; late frames for disposed ids are inert on both ends.",
 		Assume:     []string{"context cancellation semantics", "atomic.Pointer CAS semantics"},
